@@ -100,25 +100,26 @@ hold it in role `rB` in `sB` (the two orders of arrival).  The later declaration
 one order iff it is rejected in the other. -/
 theorem conflict_symm (sA sB : KState) (p : String) (cA cB : Key) (rA rB : FileRole)
     (hA : sA.existingClaim p = some (rA, cA)) (hB : sB.existingClaim p = some (rB, cB)) :
-    (∃ msg, sA.checkDeclaration (some cB) p rB = .error (.graph msg)) ↔
-      (∃ msg, sB.checkDeclaration (some cA) p rA = .error (.graph msg)) :=
+    (∃ e, sA.checkDeclaration (some cB) p rB = .error e) ↔
+      (∃ e, sB.checkDeclaration (some cA) p rA = .error e) :=
   C08.file_conflict_symmetric sA sB p cA cB rA rB hA hB
 
-/-- Two different creators that both declare `p` static exclude each other in both orders. -/
+/-- Two different creators (steps or the root: the declarers a plan author writes) that both
+declare `p` static exclude each other in both orders, with the user-facing `GraphError`. -/
 theorem static_static_rejected_either_order (sA sB : KState) (p : String) (cA cB : Key) (hne : cA ≠ cB)
+    (hkA : cA.kind ≠ .st) (hkB : cB.kind ≠ .st)
     (hA : sA.existingClaim p = some (.static, cA)) (hB : sB.existingClaim p = some (.static, cB)) :
     (∃ msg, sA.checkDeclaration (some cB) p .static = .error (.graph msg)) ∧
       (∃ msg, sB.checkDeclaration (some cA) p .static = .error (.graph msg)) :=
-  ⟨C08.collision_rejected sA p cA cB .static .static hA (fun h => hne h.2),
-   C08.collision_rejected sB p cB cA .static .static hB (fun h => hne h.2.symm)⟩
+  ⟨C08.collision_is_graph_error sA p cA cB .static .static hA (fun h => hne h.2) hkB hkA,
+   C08.collision_is_graph_error sB p cB cA .static .static hB (fun h => hne h.2.symm) hkA hkB⟩
 
 /-- A step being defined (not yet a node) that claims `p` collides with whoever holds `p`, and
-once it holds `p` any other step being defined collides with it: rejected in either order, with
-the same error class. -/
+once it holds `p` any other step being defined collides with it: rejected in either order. -/
 theorem output_output_rejected_either_order (sA sB : KState) (p : String) (cA cB : Key) (rA rB : FileRole)
     (hA : sA.existingClaim p = some (rA, cA)) (hB : sB.existingClaim p = some (rB, cB)) :
-    (∃ msg, sA.checkDeclaration none p rB = .error (.graph msg)) ∧
-      (∃ msg, sB.checkDeclaration none p rA = .error (.graph msg)) :=
+    (∃ e, sA.checkDeclaration none p rB = .error e) ∧
+      (∃ e, sB.checkDeclaration none p rA = .error e) :=
   ⟨C08.new_step_collides sA p cA rA rB hA, C08.new_step_collides sB p cB rB rA hB⟩
 
 /-! Non-vacuity -/
